@@ -92,7 +92,7 @@ def hist_execute(case):
 
 
 def subchecks(tier):
-    prof = common.full_profile(max_nodes=3)
+    prof = common.full_profile("C17", max_nodes=3)
     prof.required = {"tracker"}
     prof.weights.update({"capacity": 0.6, "cc_after": 0.35, "cc_waiting": 0.3, "reneging": 0.35, "ps": 0.05, "slotted": 0.1})
     return [
